@@ -175,6 +175,81 @@ def run(ctx):
                 ctx.ok({'function': fname, 'flag word': v, 'masks': sorted(set(masks))})
     if nflag < 1:
         raise FactError('skoolkit/skoolmacro.py: no bit-tested flag parameter found')
+    order_and_alias_rules(ctx, repo)
     from sa.rules import memo
     memo.run_for(ctx, repo, 'C17')
     return report.finish(ctx, EXPLANATION)
+
+def order_and_alias_rules(ctx, repo):
+    """C17.6: wherever a parameter string goes through both nested-macro expansion (writer.expand) and replacement-field substitution
+    (_format_params / str.format with the fields), the expansion comes first - a #LET inside the string must be visible to a {field} in the
+    same string, and braces produced or consumed by nested macros must not be taken for fields.  Decided by def-use order: the value handed
+    to the formatter derives from the result of expand(), never the other way round.
+    C17.7: the `mode` entry of the replacement fields is a copy of the built-in fields, not the live dictionary that #LET updates."""
+    ctx.rule('C17.6-expand-before-format', 'a parameter string that is both macro-expanded and field-substituted is expanded first (def-use order at every such site)', floor=3)
+    mod = repo.mod('skoolmacro')
+    def is_expand(c):
+        return isinstance(c, ast.Call) and isinstance(c.func, ast.Attribute) and c.func.attr == 'expand'
+    def is_format(c):
+        if not isinstance(c, ast.Call):
+            return False
+        if isinstance(c.func, ast.Name) and c.func.id == '_format_params':
+            return True
+        return isinstance(c.func, ast.Attribute) and c.func.attr == 'format' and any(k.arg is None for k in c.keywords)
+    n_sites = 0
+    for fname, fn in sorted(mod.funcs.items()):
+        calls = [n for n in ast.walk(fn) if is_expand(n) or is_format(n)]
+        if not any(is_expand(c) for c in calls) or not any(is_format(c) for c in calls):
+            continue
+        # variables: name -> list of (lineno, kind) for assignments whose value contains an expand / format call on that same name
+        events = []
+        for n in ast.walk(fn):
+            if isinstance(n, ast.Assign) and len(n.targets) == 1 and isinstance(n.targets[0], ast.Name):
+                v = n.targets[0].id
+                for c in ast.walk(n.value):
+                    if (is_expand(c) or is_format(c)) and c.args and any(isinstance(x, ast.Name) and x.id == v for a in c.args[:1] for x in ast.walk(a)):
+                        events.append((n.lineno, n.col_offset, v, 'expand' if is_expand(c) else 'format'))
+            # nested form: format(expand(x)) or expand(format(x))
+            if is_format(n) and n.args and any(is_expand(x) for x in ast.walk(n.args[0])):
+                events.append((n.lineno, n.col_offset, '<nested>', 'expand'))
+                events.append((n.lineno, n.col_offset + 1, '<nested>', 'format'))
+            if is_expand(n) and n.args and any(is_format(x) for x in ast.walk(n.args[0])):
+                events.append((n.lineno, n.col_offset, '<nested>', 'format'))
+                events.append((n.lineno, n.col_offset + 1, '<nested>', 'expand'))
+        by_var = {}
+        for ln, col, v, kind in sorted(events):
+            by_var.setdefault(v, []).append((ln, kind))
+        for v, evs in by_var.items():
+            kinds = [k for ln, k in evs]
+            if 'expand' in kinds and 'format' in kinds:
+                n_sites += 1
+                if kinds.index('format') < kinds.index('expand'):
+                    ctx.violation('%s %s' % (fname, v), 'skoolkit/skoolmacro.py:%d' % evs[0][0], 'in %s replacement fields are substituted into `%s` (line %d) before its nested macros are expanded (line %d): a #LET inside the string is not seen by a {field} in the same string, and braces used by nested macros are read as fields' %
+                                  (fname, v, evs[kinds.index('format')][0], evs[kinds.index('expand')][0]))
+                else:
+                    ctx.ok({'function': fname, 'string': v, 'order': 'expand, then format'})
+    if n_sites < 3:
+        raise FactError('skoolkit/skoolmacro.py: expected at least 3 expand+format sites, found %d' % n_sites)
+    ctx.rule('C17.7-mode-copy', 'the `mode` replacement field holds a copy of the built-in fields (dict copy / literal / constructor), not an alias of the dictionary #LET updates', floor=1)
+    found = 0
+    for m2 in repo.all_modules():
+        for n in ast.walk(m2.tree):
+            if isinstance(n, ast.Dict):
+                for k, v in zip(n.keys, n.values):
+                    if isinstance(k, ast.Constant) and k.value == 'mode':
+                        found += 1
+                        fresh = isinstance(v, (ast.Dict, ast.DictComp)) or (isinstance(v, ast.Call) and ((isinstance(v.func, ast.Attribute) and v.func.attr in ('copy', 'fromkeys')) or (isinstance(v.func, ast.Name) and v.func.id in ('dict', 'deepcopy', 'copy'))))
+                        if fresh:
+                            ctx.ok({'site': '%s:%d' % (m2.relpath, v.lineno), 'value': ast.unparse(v)})
+                        else:
+                            ctx.violation('mode field %s' % m2.name, '%s:%d' % (m2.relpath, v.lineno), 'the `mode` field is bound to `%s`, the live fields dictionary: after #LET(case=...), #LET(html=...) etc. {mode[...]} follows the change, though the manual says the original values stay available there (and #FOR/#FOREACH decide HTML escaping from mode[html])' % ast.unparse(v))
+            if isinstance(n, ast.Assign) and any(isinstance(t, ast.Subscript) and isinstance(t.slice, ast.Constant) and t.slice.value == 'mode' for t in n.targets):
+                found += 1
+                v = n.value
+                fresh = isinstance(v, (ast.Dict, ast.DictComp)) or (isinstance(v, ast.Call) and ((isinstance(v.func, ast.Attribute) and v.func.attr == 'copy') or (isinstance(v.func, ast.Name) and v.func.id in ('dict', 'deepcopy', 'copy'))))
+                if fresh:
+                    ctx.ok({'site': '%s:%d' % (m2.relpath, n.lineno), 'value': ast.unparse(v)})
+                else:
+                    ctx.violation('mode field %s' % m2.name, '%s:%d' % (m2.relpath, n.lineno), 'the `mode` field is bound to `%s`, not to a copy of the built-in fields' % ast.unparse(v))
+    if not found:
+        raise FactError('no construction of the `mode` replacement field found')
